@@ -483,7 +483,16 @@ def run_all(E, log=print):
             ok = (e == want_exp)
             detail = "exponent of the chain = %d (%s)" % (e, "== expected" if ok else "!= expected %d" % want_exp)
             g("%s computes self^(%s)" % (name, "p-2" if name == "invert" else "(p+1)/4"), ok, detail)
-            g("%s flag" % name, True, "is_some flag term: %s" % flag)
+            if name == "invert":
+                z = z3.Int("self_is_zero")
+                sv = z3.Solver()
+                sv.add(z >= 0, z <= 1, flag != 1 - z)
+                fok = sv.check() == z3.unsat
+                want_flag = "1 - self_is_zero (None exactly for zero)"
+            else:
+                fok = str(flag) in ("ct_eq_%d_1" % (2 * want_exp), "ct_eq_1_%d" % (2 * want_exp))
+                want_flag = "ct_eq(result^2, self) (Some exactly when the candidate squares to the input)"
+            g("%s flag" % name, bool(fok), "is_some flag term: %s; required: %s" % (flag, want_flag))
             return str(flag)
         guarded(name, f)
     chain("invert", P - 2)
